@@ -849,7 +849,7 @@ class EngineA:
                 if problem is not None:
                     now = None
             if now is None or now.shape != want.shape or not np.array_equal(now, want):
-                return self._viol("earlier_read_result_unchanged_by_later_write", op, i, f"the object returned earlier by {name}[{key}] changed after a later write: now {None if now is None else now.tolist()}, was {want.tolist()}")
+                return self._viol("earlier_read_result_unchanged_by_later_write", op, i, f"the tensor returned by / assigned through {name}[{key}] earlier changed after a later write: now {None if now is None else now.tolist()}, was {want.tolist()}")
         return None
 
     # ---- writes
@@ -1054,6 +1054,10 @@ class EngineA:
                 got, problem = densify(rhs_objs["S"].subs, rhs_objs["S"].vals, tuple(int(v) for v in rhs_objs["S"].shape))
                 if problem is not None or got.shape != R.shape or not np.array_equal(got, R):
                     return self._viol("right_hand_side_unchanged_by_assignment", "w_region", i, f"the sparse tensor assigned into S[{key}] no longer reads as before: {problem or np.asarray(got).tolist()} vs {R.tolist()}")
+            # ... and must stay so under later writes to the receiver (no storage kept in common)
+            for nm in ("D", "S"):
+                if nm in rhs_objs:
+                    self._retain(w, nm, ["rhs of"] + list(key), rhs_objs[nm], R)
         self._write_effect(w, res, bc, bs)
         return None
 
